@@ -7,4 +7,5 @@ mkdir -p work evidence/replays
 python3 tools/gen.py
 (cd lean && lake build UpdaterModel model)
 (cd harness && cargo build --offline)
+(cd /repo && cargo build -p updater --offline --target-dir /verif/harness/target-lib)
 echo setup-ok
